@@ -124,8 +124,12 @@ def build_lean(targets):
                         "stage: lake build " + " ".join(targets) + "\n" + out[-6000:], False)
 
 
+def target_dir():
+    return os.path.join(CACHE, "target" if REPO == "/repo" else "target-alt")
+
+
 def harness_bin(profile):
-    return os.path.join(CACHE, "target", "release" if profile == "release" else "debug", "harness")
+    return os.path.join(target_dir(), "release" if profile == "release" else "debug", "harness")
 
 
 def harness_dir():
@@ -138,7 +142,8 @@ def harness_dir():
         shutil.rmtree(d)
     shutil.copytree(HARN, d, ignore=shutil.ignore_patterns("target"))
     m = os.path.join(d, "Cargo.toml")
-    open(m, "w").write(open(m).read().replace('path = "/repo"', 'path = "%s"' % REPO))
+    txt = open(m).read().replace('path = "/repo"', 'path = "%s"' % REPO)
+    open(m, "w").write(txt)
     return d
 
 
@@ -147,7 +152,7 @@ def build_harness(profile):
     if not os.path.exists(os.path.join(hd, "Cargo.lock")):
         shutil.copy(os.path.join(REPO, "Cargo.lock"), os.path.join(hd, "Cargo.lock"))
     cmd = ["cargo", "build", "--offline"] + (["--release"] if profile == "release" else [])
-    env = {"CARGO_TARGET_DIR": os.path.join(CACHE, "target"),
+    env = {"CARGO_TARGET_DIR": target_dir(),
            "RUSTFLAGS": "--cfg rust_vmm_acpi_tables_verif --check-cfg cfg(rust_vmm_acpi_tables_verif) -Awarnings"}
     rc, out = sh(cmd, cwd=hd, env=env, timeout=1800)
     if rc != 0:
